@@ -244,6 +244,12 @@ func tsigVerify(msg []byte, provider TsigProvider, requestMAC string, timersOnly
 		return err
 	}
 
+	// The digest covers the CLASS of the TSIG RR as ANY (RFC 8945, 4.2 and
+	// 4.3.3); a record that carries another class is not what was signed.
+	if tsig.Hdr.Class != ClassANY {
+		return ErrSig
+	}
+
 	buf, err := tsigBuffer(stripped, tsig, requestMAC, timersOnly)
 	if err != nil {
 		return err
